@@ -146,6 +146,18 @@ class G:
     def script(self, in_body, excl, lo, hi, weights=None, cur_def=-1):
         return [self.act(in_body, excl, weights, cur_def) for _ in range(self.r.randint(lo, hi))]
 
+def inline_senders(rng, script):
+    """An exclusive system can call the `World`-level senders in-line (`world.send_system_event`, `world.broadcast`,
+    `world.entity_event`: the event is delivered before the body goes on, after whatever the body queued so far — its own
+    reader clean-up first) and can flush the world itself. Half of its sender actions take that form."""
+    out = []
+    for l in script:
+        w = l.split()[0]
+        if w in ("sysevent", "broadcast", "entevent") and rng.random() < 0.5: out.append("d" + l)
+        else: out.append(l)
+        if rng.random() < 0.08: out.append("flush")
+    return out
+
 def gen_mix(rng, size=1.0, weights=None, body_weights=None, wr_prob=0.3):
     g = G(rng)
     out = []
@@ -161,6 +173,7 @@ def gen_mix(rng, size=1.0, weights=None, body_weights=None, wr_prob=0.3):
     for d in range(g.ndefs):
         nruns = rng.randint(1, 3)
         runs = [g.script(True, g.excl[d], 0, int(3 * size) + 1, body_weights, d) for _ in range(nruns)]
+        if g.excl[d]: runs = [inline_senders(rng, sc) for sc in runs]
         defs.append(runs)
     g.nE, g.nS, g.nT = 0, 0, 0
     for d, runs in enumerate(defs):
